@@ -248,7 +248,11 @@ func c17r3(r *R) {
 		}
 		if !empty && len(p.Ret) == 2 && p.Ret[1] == "nil" {
 			base := p.Ret[0]
-			if !fieldFromParam(nm, "include", 0, 1) || !fieldFromParam(nm, "exclude", 1, 0) {
+			// by value flow in the function itself, or (the literal is built by a shared constructor) by the terms the
+			// returned matcher's fields hold on this path
+			inc, exc := p.Mem[base+".include"], p.Mem[base+".exclude"]
+			byTerms := strings.HasSuffix(inc, "($0)") && strings.HasSuffix(exc, "($1)") && strings.TrimSuffix(inc, "($0)") == strings.TrimSuffix(exc, "($1)")
+			if !(fieldFromParam(nm, "include", 0, 1) && fieldFromParam(nm, "exclude", 1, 0)) && !byTerms {
 				bad = "matcher built with include=" + p.Mem[base+".include"] + " exclude=" + p.Mem[base+".exclude"]
 			}
 		}
